@@ -162,7 +162,7 @@ Definition c_mode : fmode := if wr then MAppend else MRead.
 Definition fin_prog (errval ocount : Z) (buf : payload) : prog :=
   Do (Coll K_BARRIER 0 []) (fun _ =>
     let last (hf : bool) := bcast true (P - 1) me errval (fun ev => k (errclass CfgC ev) ocount buf (mkH true hf)) in
-    if me =? 0 then io K_FOPEN [mode_code c_mode] (fun r => if negb (r1 r =? 0) then abort else last (r0 r =? 1))
+    if me =? 0 then io K_FOPEN [mode_code c_mode] (fun r => if negb (r0 r =? 1) then abort else last (r0 r =? 1))
     else last false).
 Definition xfer_prog : prog :=
   (if wr then io K_FWRITE (size :: count :: data) else io K_FREAD [size; count]) (fun rx =>
@@ -176,7 +176,7 @@ Definition body_prog (active : Z) : prog :=
   if active =? -1 then
     (if negb (me =? 0) then
        io K_FOPEN [mode_code c_mode] (fun r =>
-         let errval := r1 r in
+         let errval := open_judge (r0 r =? 1) (r1 r) in
          if negb (errval =? 0) then send_next P me errval (fin_prog errval 0 []) else transfer_prog)
      else transfer_prog)
   else if 0 <? active then send_next P me active (fin_prog active 0 [])
@@ -300,7 +300,8 @@ Definition turn_io (wr : bool) (w1 : world) (q : Z) (s : stream) (size : Z) (a :
 Lemma g_turn_eq wr w s0 q tok size a :
   g_turn wr w s0 q tok size a =
   if tok =? -1 then
-    let '(w1, so, e1) := (if q =? 0 then (w, s0, 0) else g_fopen w q (if wr then MAppend else MRead)) in
+    let '(w1, so, e0) := (if q =? 0 then (w, s0, 0) else g_fopen w q (if wr then MAppend else MRead)) in
+    let e1 := open_judge (match so with Some _ => true | None => false end) e0 in
     if negb (e1 =? 0) then Some (w1, mkT e1 0 [])
     else match so with None => None | Some s => turn_io wr w1 q s size a end
   else if 0 <? tok then Some (w, mkT tok 0 [])
@@ -418,7 +419,7 @@ Proof.
     + cbn [negb Z.eqb]. destruct s0 as [s|]; [apply erase_turn_io|split; [reflexivity|exact I]].
     + destruct (erase_fopen w q (if wr then MAppend else MRead)) as [E1 P1]. rewrite E1.
       destruct (g_fopen w q (if wr then MAppend else MRead)) as [[w1 so] e1]. cbn [fst snd] in *.
-      destruct (negb (e1 =? 0)); [cbn [oerase oplan]; split; [reflexivity|exact P1]|].
+      cbv zeta. destruct (negb (open_judge match so with Some _ => true | None => false end e1 =? 0)); [cbn [oerase oplan]; split; [reflexivity|exact P1]|].
       destruct so as [s|]; [|split; [reflexivity|exact I]].
       destruct (erase_turn_io wr w1 q s size a) as [E2 P2]. split; [exact E2|].
       destruct (turn_io wr w1 q s size a) as [[w' t]|]; cbn [oplan] in *; congruence.
@@ -448,7 +449,7 @@ Proof.
   destruct (g_turns wr (g_w g) (g_s0 g) 0 (-1) size args) as [[w1 ts]|]; cbn [oerase oplan] in *; [|split; [reflexivity|exact I]].
   destruct (erase_fopen w1 0 (if wr then MAppend else MRead)) as [E2 P2]. rewrite E2.
   destruct (g_fopen w1 0 (if wr then MAppend else MRead)) as [[w2 so] e]. cbn [fst snd] in *.
-  destruct (negb (e =? 0)); [split; [reflexivity|exact I]|]. cbn [g_w]. split; [reflexivity|congruence].
+  destruct so; [|split; [reflexivity|exact I]]. cbn [g_w]. split; [reflexivity|congruence].
 Qed.
 
 Lemma erase_at tail c wr g q size a :
@@ -513,27 +514,28 @@ Proof.
     rewrite !set_st_twice. rewrite (tok_out_if e3 oc buf). apply lrun_nil.
 Qed.
 
-Lemma turn_lrun wr P q size a k w st s0 tokv w1 t : fopen_honest (w_plan w) ->
+Lemma turn_lrun wr P q size a k w st s0 tokv w1 t :
   g_turn wr w s0 q tokv size a = Some (w1, t) -> (q = 0 -> st 0 = s0) ->
   clrun q (body_prog wr P q (a_off a) size (a_count a) (a_data a) k tokv) (mkFS w st)
         (send_next P q (tok_out t) (fin_prog wr P q k (t_errval t) (t_ocount t) (t_buf t)))
         (mkFS w1 (if tokv =? -1 then set_st st q None else st)).
 Proof.
-  intros Hh. rewrite g_turn_eq. unfold body_prog. intros G H0.
+  rewrite g_turn_eq. unfold body_prog. intros G H0.
   destruct (tokv =? -1) eqn:Et.
   - destruct (Z.eqb_spec q 0) as [->|Hq]; cbn [negb].
-    + cbn [negb Z.eqb] in G. destruct s0 as [s|]; [|discriminate].
+    + cbn [negb Z.eqb] in G. destruct s0 as [s|]; unfold open_judge in G; cbn [negb Z.eqb] in G; [|discriminate].
       apply transfer_lrun with (s := s); [apply H0; reflexivity|exact G].
     + destruct (g_fopen w q (if wr then MAppend else MRead)) as [[wa so] e1] eqn:Eo.
       unfold io. eapply lrun_cons; [reflexivity|]. unfold c_mode. rewrite eff_fopen, Eo. cbn [fst snd].
-      unfold r1 at 1. unfold r1 at 1. cbn [nth].
-      destruct (e1 =? 0) eqn:B1; cbn [negb] in *.
-      * destruct so as [s|]; [|discriminate].
+      unfold r0 at 1. unfold r1 at 1. unfold r0 at 1. unfold r1 at 1. cbn [nth].
+      cbv zeta in G.
+      destruct so as [s|]; unfold open_judge in *; cbn [is_some Z.eqb negb] in *.
+      * (* a stream: the turn goes on, whatever errno fopen left *)
         replace (set_st st q None) with (set_st (set_st st q (Some s)) q None) by apply set_st_twice.
         apply transfer_lrun with (s := s); [apply set_st_same|exact G].
-      * inversion G; subst. clear G. cbn [t_errval t_ocount t_buf].
-        assert (so = None) as -> by (eapply fopen_err_none; [exact Hh|exact Eo|intros ->; discriminate]).
-        unfold tok_out. cbn [t_errval]. rewrite B1. unfold r1. cbn [nth]. apply lrun_nil.
+      * destruct (e1 =? 0) eqn:B1; cbn [negb] in *; [discriminate|].
+        inversion G; subst. clear G. cbn [t_errval t_ocount t_buf].
+        unfold tok_out. cbn [t_errval]. rewrite B1. apply lrun_nil.
   - destruct (0 <? tokv) eqn:Ep; [|discriminate].
     inversion G; subst. clear G. cbn [t_errval t_ocount t_buf].
     assert (tok_out (mkT tokv 0 []) = tokv) as ->.
@@ -574,7 +576,6 @@ Record mid (q tokv : Z) (w : world) (ts : list turn) (s : cstate) (tk : tokst) :
   mid_ch1 : 0 < q < P -> sch s (q - 1) q = [(1, [tokv])];
   mid_ch0 : forall a b, ~ (0 < q < P /\ a = q - 1 /\ b = q) -> sch s a b = [];
   mid_w : fs_w (ssh s) = w;
-  mid_hon : fopen_honest (w_plan w);
   mid_st0 : fs_st (ssh s) 0 = if q =? 0 then s0 else None;
   mid_st : forall r, r <> 0 -> fs_st (ssh s) r = None;
   mid_tk0 : q = 0 -> tk = Held 0;
@@ -588,18 +589,16 @@ Lemma turn_tail q tokv w ts s1 w1 t : 0 <= q < P -> len ts = q ->
   (forall r, q < r < P -> spr s1 r = cp r) ->
   (forall r, ~ 0 <= r < P -> spr s1 r = out r) ->
   (forall a b, sch s1 a b = []) ->
-  fs_w (ssh s1) = w -> fopen_honest (w_plan w) ->
+  fs_w (ssh s1) = w ->
   fs_st (ssh s1) 0 = (if q =? 0 then s0 else None) -> (forall r, r <> 0 -> fs_st (ssh s1) r = None) ->
   (q = 0 -> tokv = -1) ->
   g_turn wr w s0 q tokv size (arg_of args q) = Some (w1, t) ->
   exists n s' tk', cirun P n (Good s1 (Held q)) (Good s' tk') /\ mid (q + 1) (tok_out t) w1 (ts ++ [t]) s' tk'.
 Proof.
-  intros Hq Hlen Hbody Hdone Htodo Hout Hch Hw Hhon Hst0 Hst Htok0 G.
+  intros Hq Hlen Hbody Hdone Htodo Hout Hch Hw Hst0 Hst Htok0 G.
   destruct (ssh s1) as [w0 st] eqn:Esh. cbn [fs_w fs_st] in *. subst w0.
   assert (H0' : q = 0 -> st 0 = s0) by (intros ->; exact Hst0).
-  pose proof (turn_lrun wr P q size (arg_of args q) (K q) w st s0 tokv w1 t Hhon G H0') as L.
-  assert (Hhon1 : fopen_honest (w_plan w1)).
-  { pose proof (proj2 (erase_turn wr w s0 q tokv size (arg_of args q))) as Pl. rewrite G in Pl. cbn [oplan] in Pl. rewrite Pl. exact Hhon. }
+  pose proof (turn_lrun wr P q size (arg_of args q) (K q) w st s0 tokv w1 t G H0') as L.
   destruct (irun_lrun fsys P c12_local fs_eff c12_creply c12_gives c12_ctok q _ _ _ _ L s1 Hq Hbody Esh) as [n1 R1].
   set (st' := if tokv =? -1 then set_st st q None else st) in *.
   assert (Hst0' : st' 0 = None).
@@ -629,7 +628,6 @@ Proof.
     + intros _. unfold s2. cbn [sch]. replace (q + 1 - 1) with q by lia. rewrite upd2_same, Hch. reflexivity.
     + intros a b Hab. unfold s2. cbn [sch]. rewrite upd2_other by (intros E; injection E; lia). apply Hch.
     + reflexivity.
-    + exact Hhon1.
     + destruct (Z.eqb_spec (q + 1) 0); [lia|exact Hst0'].
     + exact Hst'.
     + lia.
@@ -647,7 +645,6 @@ Proof.
     + lia.
     + intros a b _. apply Hch.
     + reflexivity.
-    + exact Hhon1.
     + destruct (Z.eqb_spec (q + 1) 0); [lia|exact Hst0'].
     + exact Hst'.
     + lia.
@@ -667,7 +664,7 @@ Lemma mid_step q tokv w ts s tk w1 t : 0 <= q < P -> mid q tokv w ts s tk -> (q 
   g_turn wr w s0 q tokv size (arg_of args q) = Some (w1, t) ->
   exists n s' tk', cirun P n (Good s tk) (Good s' tk') /\ mid (q + 1) (tok_out t) w1 (ts ++ [t]) s' tk'.
 Proof.
-  intros Hq M Htok0 G. destruct M as [Mlen Mdone Mtodo Mout Mch1 Mch0 Mw Mhon Mst0 Mst Mtk0 Mtk1 Mtk2].
+  intros Hq M Htok0 G. destruct M as [Mlen Mdone Mtodo Mout Mch1 Mch0 Mw Mst0 Mst Mtk0 Mtk1 Mtk2].
   destruct (Z.eq_dec q 0) as [Eq|Nq].
   - rewrite (Mtk0 Eq). replace (Held 0) with (Held q) by (f_equal; exact Eq).
     apply (turn_tail q tokv w ts s w1 t); try assumption.
@@ -732,8 +729,8 @@ Lemma lastp_eq r t hf :
 Proof. reflexivity. Qed.
 
 (* barrier, re-open by rank 0, broadcast of the last rank's error value *)
-Lemma finale tokv w ts s w2 so :
-  mid P tokv w ts s (Held (P - 1)) -> g_fopen w 0 (c_mode wr) = (w2, so, 0) ->
+Lemma finale tokv w ts s w2 so e :
+  mid P tokv w ts s (Held (P - 1)) -> g_fopen w 0 (c_mode wr) = (w2, so, e) -> is_some so = true ->
   exists n s', cirun P n (Good s (Held (P - 1))) (Good s' (Held 0))
     /\ (forall r, 0 <= r < P -> spr s' r = K r (errclass CfgC (t_errval (tn ts (P - 1)))) (t_ocount (tn ts r)) (t_buf (tn ts r))
                                               (mkH true ((r =? 0) && is_some so)))
@@ -741,7 +738,7 @@ Lemma finale tokv w ts s w2 so :
     /\ (forall a b, sch s' a b = [])
     /\ fs_w (ssh s') = w2 /\ fs_st (ssh s') 0 = so /\ (forall r, r <> 0 -> fs_st (ssh s') r = None).
 Proof.
-  intros M Go. destruct M as [Mlen Mdone Mtodo Mout Mch1 Mch0 Mw Mhon Mst0 Mst Mtk0 Mtk1 Mtk2].
+  intros M Go Hso. destruct M as [Mlen Mdone Mtodo Mout Mch1 Mch0 Mw Mst0 Mst Mtk0 Mtk1 Mtk2].
   (* 1. the barrier *)
   assert (A1 : at_coll fsys P s K_BARRIER 0).
   { intros r Hr. rewrite (Mdone r Hr). unfold fp, fin_prog. eauto. }
@@ -750,7 +747,7 @@ Proof.
   set (s4 := mkst (advance fsys P c12_creply s K_BARRIER 0) (sch s) (ssh s)) in *.
   assert (E4 : forall r, 0 <= r < P -> spr s4 r =
              if r =? 0 then io K_FOPEN [mode_code (c_mode wr)]
-                               (fun x => if negb (r1 x =? 0) then abort else lastp r (tn ts r) (r0 x =? 1))
+                               (fun x => if negb (r0 x =? 1) then abort else lastp r (tn ts r) (r0 x =? 1))
              else lastp r (tn ts r) false).
   { intros r Hr. unfold s4. cbn [spr]. unfold advance.
     replace ((0 <=? r) && (r <? P)) with true by lia. rewrite (Mdone r Hr). reflexivity. }
@@ -761,8 +758,7 @@ Proof.
   destruct (ssh s) as [w0 st] eqn:Esh. cbn [fs_w fs_st] in *. subst w0.
   assert (L : clrun 0 (spr s4 0) (mkFS w st) (lastp 0 (tn ts 0) (is_some so)) (mkFS w2 (set_st st 0 so))).
   { rewrite E4 by lia. cbn [Z.eqb]. unfold io. eapply lrun_cons; [reflexivity|].
-    rewrite eff_fopen, Go. cbn [fst snd]. unfold r0, r1. cbn [nth negb Z.eqb].
-    replace ((if is_some so then 1 else 0) =? 1) with (is_some so) by (destruct so; reflexivity). apply lrun_nil. }
+    rewrite eff_fopen, Go. cbn [fst snd]. unfold r0, r1. cbn [nth]. rewrite Hso. cbn [negb Z.eqb]. apply lrun_nil. }
   destruct (irun_lrun fsys P c12_local fs_eff c12_creply c12_gives c12_ctok 0 _ _ _ _ L s4 ltac:(lia) eq_refl eq_refl) as [n2 R2].
   set (s5 := mkst (upd1 (spr s4) 0 (lastp 0 (tn ts 0) (is_some so))) (sch s4) (mkFS w2 (set_st st 0 so))) in *.
   assert (E5 : forall r, 0 <= r < P -> spr s5 r = lastp r (tn ts r) ((r =? 0) && is_some so)).
@@ -812,7 +808,7 @@ Qed.
 Lemma coll_witness s w ctx g' rs : len args = P ->
   (forall r, 0 <= r < P -> spr s r = cp r) -> (forall r, ~ 0 <= r < P -> spr s r = out r) ->
   (forall a b, sch s a b = []) ->
-  fs_w (ssh s) = w -> fopen_honest (w_plan w) -> fs_st (ssh s) 0 = s0 -> (forall r, r <> 0 -> fs_st (ssh s) r = None) ->
+  fs_w (ssh s) = w -> fs_st (ssh s) 0 = s0 -> (forall r, r <> 0 -> fs_st (ssh s) r = None) ->
   g_coll wr (mkG w s0 ctx) size args = Some (g', rs) ->
   exists n s', cirun P n (Good s (Held 0)) (Good s' (Held 0))
     /\ (forall r, 0 <= r < P ->
@@ -823,10 +819,11 @@ Lemma coll_witness s w ctx g' rs : len args = P ->
     /\ fs_w (ssh s') = g_w g' /\ fs_st (ssh s') 0 = g_s0 g' /\ (forall r, r <> 0 -> fs_st (ssh s') r = None)
     /\ g_ctx g' = ctx /\ len rs = P.
 Proof.
-  intros Hlen Hp Ho Hc Hw Hhon Hs0 Hst G. unfold g_coll in G. cbn [g_w g_s0 g_ctx] in G.
+  intros Hlen Hp Ho Hc Hw Hs0 Hst G. unfold g_coll in G. cbn [g_w g_s0 g_ctx] in G.
   destruct (g_turns wr w s0 0 (-1) size args) as [[w1 ts]|] eqn:Gt; [|discriminate].
   destruct (g_fopen w1 0 (if wr then MAppend else MRead)) as [[w2 so] e] eqn:Go.
-  destruct (e =? 0) eqn:Ee; cbn [negb] in G; [|discriminate]. apply Z.eqb_eq in Ee. subst e.
+  destruct so as [sr|] eqn:Eso; [|discriminate]. rewrite <- Eso in *.
+  assert (Hso : is_some so = true) by (rewrite Eso; reflexivity).
   inversion G; subst g' rs. clear G. cbn [g_w g_s0 g_ctx].
   assert (M0 : mid 0 (-1) w [] s (Held 0)).
   { constructor.
@@ -837,7 +834,6 @@ Proof.
     - intros Hx. lia.
     - intros a b _. apply Hc.
     - exact Hw.
-    - exact Hhon.
     - exact Hs0.
     - exact Hst.
     - reflexivity.
@@ -846,7 +842,7 @@ Proof.
   destruct (mid_turns args 0 (-1) w [] s (Held 0) w1 ts ltac:(lia) ltac:(lia) eq_refl M0 ltac:(auto) Gt)
     as (n1 & s1 & tk1 & tv & R1 & M1).
   cbn [app] in M1. pose proof (mid_tk2 _ _ _ _ _ _ M1 eq_refl) as Etk. subst tk1.
-  destruct (finale tv w1 ts s1 w2 so M1 Go) as (n2 & s2 & R2 & Fp & Fo & Fc & Fw & Fs0 & Fst).
+  destruct (finale tv w1 ts s1 w2 so e M1 Go Hso) as (n2 & s2 & R2 & Fp & Fo & Fc & Fw & Fs0 & Fst).
   exists (n1 + n2)%nat, s2. split; [eapply irun_app; eauto|].
   pose proof (g_turns_length _ _ _ _ _ _ Gt) as Lts.
   assert (Hlts : len ts = P) by (unfold len in *; lia).
@@ -869,12 +865,12 @@ Proof. lia. Qed.
 Lemma in_range_false r P : ~ 0 <= r < P -> (0 <=? r) && (r <? P) = false.
 Proof. lia. Qed.
 
-Theorem coll_every_schedule wr size args g g' rs : 0 < len args -> fopen_honest (w_plan (g_w g)) ->
+Theorem coll_every_schedule wr size args g g' rs : 0 < len args ->
   g_coll wr g size args = Some (g', rs) ->
   cfinal (len args) (coll_final (len args) g' rs)
   /\ exists n, csched (len args) (coll_state wr (len args) size args (g_w g) (g_s0 g)) (coll_final (len args) g' rs) n.
 Proof.
-  intros HP Hhon G. set (P := len args) in *.
+  intros HP G. set (P := len args) in *.
   split.
   { intros r Hr. unfold coll_final. cbn [spr]. rewrite in_range_true by exact Hr. unfold k_ret. eauto. }
   destruct g as [w s0 ctx]. cbn [g_w g_s0] in *.
@@ -884,7 +880,6 @@ Proof.
   - intros r Hr. unfold coll_state. cbn [spr]. rewrite in_range_false by exact Hr. reflexivity.
   - reflexivity.
   - reflexivity.
-  - exact Hhon.
   - reflexivity.
   - intros r Hr. unfold coll_state. cbn [ssh fs_st]. destruct (Z.eqb_spec r 0); [contradiction|reflexivity].
   - exact G.
@@ -916,8 +911,7 @@ Proof.
   intros Hw Hs He Hne Hwf m s' Hrun.
   destruct (coll_write_nf g c fl op lg s size args Hw Hs He Hne Hwf) as (g' & G & Hw' & Hs' & _).
   assert (HP : 0 < len args) by (destruct args; [congruence|unfold len; cbn [length]; lia]).
-  assert (Hhon : fopen_honest (w_plan (g_w g))) by (intros q k e s0 E; rewrite (wst_plan _ _ _ _ _ Hw) in E; discriminate).
-  destruct (coll_every_schedule true size args g g' _ HP Hhon G) as (_ & n & Hall).
+  destruct (coll_every_schedule true size args g g' _ HP G) as (_ & n & Hall).
   destruct (Hall m s' Hrun) as (_ & _ & Hfin & Hns & _).
   split; [exact Hns|]. intros Hf. destruct (Hfin Hf) as [-> _].
   split.
@@ -1269,7 +1263,6 @@ Proof.
       { exact Sout. }
       { exact Sch. }
       { rewrite Esh. reflexivity. }
-      { apply plan_ok_honest. exact Splan. }
       { rewrite Esh. exact Sst0. }
       { rewrite Esh. exact Sst. }
       { exact Ee. }
@@ -1280,10 +1273,7 @@ Proof.
         destruct (erase_turns wr (g_s0 g) size args (g_w g) 0 (-1)) as [_ Pt].
         destruct (g_turns wr (g_w g) (g_s0 g) 0 (-1) size args) as [[w1 ts]|]; [|discriminate]. cbn [oplan] in Pt.
         destruct (g_fopen w1 0 (if wr then MAppend else MRead)) as [[w2 so] e] eqn:Eo.
-        assert (Hp1 : plan_ok (w_plan w1)) by (rewrite Pt; exact Splan).
-        destruct (acct_fopen _ _ _ _ _ _ Hp1 Eo) as (_ & _ & Z0 & _).
-        destruct (e =? 0) eqn:E0; cbn [negb] in Gc; [|discriminate]. apply Z.eqb_eq in E0.
-        destruct (Z0 E0) as (Hso & _). inversion Gc; subst. cbn [g_s0]. destruct so; [reflexivity|congruence]. }
+        destruct so as [sr|]; [|discriminate]. inversion Gc; subst. reflexivity. }
       eapply (GLUE g1 _ (fun r => mkH true ((r =? 0) && is_some (g_s0 g1)))
                    (fun r => accs r ++ enc_r CfgC (nth (Z.to_nat r) rs (mkR 0 0 []))) s1 n1 R1); [| |exact G].
       * constructor; cbn [h_ctx h_file].
@@ -1469,12 +1459,13 @@ Proof.
   intros Hp Ht G. split.
   - rewrite g_turn_eq in G. destruct (tokv =? -1) eqn:Et.
     + destruct (q =? 0).
-      * cbn [negb Z.eqb] in G. destruct s0 as [s|]; [|discriminate]. apply tok_out_ok_nonneg. eapply turn_io_errval; eauto.
+      * cbn [negb Z.eqb] in G. destruct s0 as [s|]; unfold open_judge in G; cbn [negb Z.eqb] in G; [|discriminate].
+        apply tok_out_ok_nonneg. eapply turn_io_errval; eauto.
       * destruct (g_fopen w q (if wr then MAppend else MRead)) as [[wa so] e1] eqn:Eo.
         destruct (acct_fopen _ _ _ _ _ _ Hp Eo) as ([Pl _] & N & _ & _).
-        destruct (negb (e1 =? 0)).
-        -- inversion G; subst. apply tok_out_ok_nonneg. exact N.
-        -- destruct so as [s|]; [|discriminate]. apply tok_out_ok_nonneg. eapply turn_io_errval; [|exact G]. rewrite Pl. exact Hp.
+        cbv zeta in G. destruct so as [s|]; unfold open_judge in G; cbn [negb Z.eqb] in G.
+        -- apply tok_out_ok_nonneg. eapply turn_io_errval; [|exact G]. rewrite Pl. exact Hp.
+        -- destruct (negb (e1 =? 0)); [|discriminate]. inversion G; subst. apply tok_out_ok_nonneg. exact N.
     + destruct (0 <? tokv) eqn:E0; [|discriminate]. inversion G; subst. apply tok_out_ok_nonneg. cbn [t_errval]. lia.
   - destruct (erase_turn wr w s0 q tokv size a) as [_ Pt]. rewrite G in Pt. cbn [oplan] in Pt. rewrite Pt. exact Hp.
 Qed.
@@ -1529,14 +1520,17 @@ Proof.
   destruct (tokv =? -1) eqn:Et.
   - destruct (Z.eqb_spec q 0) as [->|Hq]; cbn [negb].
     + cbn [negb Z.eqb] in G. destruct (H0 eq_refl) as [E0 S0]. destruct s0 as [s|]; [|discriminate].
+      unfold open_judge in G; cbn [negb Z.eqb] in G.
       apply transfer_lrun_abort with (s := s); [exact E0|exact G].
     + destruct (g_fopen w q (if wr then MAppend else MRead)) as [[wa so] e1] eqn:Eo.
-      destruct (acct_fopen _ _ _ _ _ _ Hp Eo) as (_ & _ & Z0 & _).
-      destruct (e1 =? 0) eqn:B1; cbn [negb] in G; [|discriminate].
-      apply Z.eqb_eq in B1. destruct (Z0 B1) as (Hso & _). destruct so as [s|]; [|congruence].
+      destruct (acct_fopen _ _ _ _ _ _ Hp Eo) as (_ & _ & Z0 & Z1).
+      cbv zeta in G. destruct so as [s|]; unfold open_judge in G; cbn [negb Z.eqb] in G.
+      2:{ (* no stream: errno is set (plan_ok), the turn does not abort *)
+          destruct (Z.eq_dec e1 0) as [E|E]; [destruct (Z0 E) as (Hso & _); congruence|].
+          rewrite (proj2 (Z.eqb_neq e1 0) E) in G. discriminate. }
       destruct (transfer_lrun_abort wr P q size a k wa (set_st st q (Some s)) s (set_st_same _ _ _) G) as [sh' L].
       exists sh'. unfold io. eapply lrun_cons; [reflexivity|]. unfold c_mode. rewrite eff_fopen, Eo. cbn [fst snd].
-      unfold r1 at 1. unfold r1 at 1. cbn [nth]. subst e1. cbn [Z.eqb negb]. exact L.
+      unfold r0 at 1. unfold r1 at 1. unfold r0 at 1. unfold r1 at 1. cbn [nth is_some]. unfold open_judge. cbn [Z.eqb negb]. exact L.
   - destruct Ht as [->|Hpos]; [discriminate|].
     destruct (0 <? tokv) eqn:Ep; [discriminate|]. lia.
 Qed.
@@ -1627,7 +1621,7 @@ Lemma mid_step_abort q tokv w ts s tk : 0 <= q < P -> midA q tokv w ts s tk -> (
   g_turn wr w s0 q tokv size (arg_of args q) = None ->
   exists n s' tk', cirun P n (Good s tk) (Good s' tk') /\ aborted1 q ts s'.
 Proof.
-  intros Hq M Htok0 Ht Hp G. destruct M as [Mlen Mdone Mtodo Mout Mch1 Mch0 Mw Mhon Mst0 Mst Mtk0 Mtk1 Mtk2].
+  intros Hq M Htok0 Ht Hp G. destruct M as [Mlen Mdone Mtodo Mout Mch1 Mch0 Mw Mst0 Mst Mtk0 Mtk1 Mtk2].
   destruct (Z.eq_dec q 0) as [Eq|Nq].
   - rewrite (Mtk0 Eq). replace (Held 0) with (Held q) by (f_equal; exact Eq).
     destruct (turn_tail_abort q tokv w ts s Hq) as (n & s' & R & A); try assumption.
@@ -1686,10 +1680,10 @@ Qed.
 
 (* all turns fine, but the re-open by rank 0 fails *)
 Lemma finale_abort tokv w ts s w2 so e :
-  midA P tokv w ts s (Held (P - 1)) -> g_fopen w 0 (c_mode wr) = (w2, so, e) -> e <> 0 ->
+  midA P tokv w ts s (Held (P - 1)) -> g_fopen w 0 (c_mode wr) = (w2, so, e) -> so = None ->
   exists n s', cirun P n (Good s (Held (P - 1))) (Good s' (Held 0)) /\ aborted2 ts s'.
 Proof.
-  intros M Go He. destruct M as [Mlen Mdone Mtodo Mout Mch1 Mch0 Mw Mhon Mst0 Mst Mtk0 Mtk1 Mtk2].
+  intros M Go He. destruct M as [Mlen Mdone Mtodo Mout Mch1 Mch0 Mw Mst0 Mst Mtk0 Mtk1 Mtk2].
   assert (A1 : at_coll fsys P s K_BARRIER 0).
   { intros r Hr. rewrite (Mdone r Hr). unfold fp, fin_prog. eauto. }
   pose proof (irun_coll1 fsys P c12_local fs_eff c12_creply c12_gives c12_ctok s (Held (P - 1)) K_BARRIER 0 HP eq_refl A1) as R1.
@@ -1697,15 +1691,14 @@ Proof.
   set (s4 := mkst (advance fsys P c12_creply s K_BARRIER 0) (sch s) (ssh s)) in *.
   assert (E4 : forall r, 0 <= r < P -> spr s4 r =
              if r =? 0 then io K_FOPEN [mode_code (c_mode wr)]
-                               (fun x => if negb (r1 x =? 0) then abort else lastpA r (tn ts r) (r0 x =? 1))
+                               (fun x => if negb (r0 x =? 1) then abort else lastpA r (tn ts r) (r0 x =? 1))
              else lastpA r (tn ts r) false).
   { intros r Hr. unfold s4. cbn [spr]. unfold advance.
     replace ((0 <=? r) && (r <? P)) with true by lia. rewrite (Mdone r Hr). reflexivity. }
   destruct (ssh s) as [w0 st] eqn:Esh. cbn [fs_w fs_st] in *. subst w0.
   assert (L : clrun 0 (spr s4 0) (mkFS w st) abort (mkFS w2 (set_st st 0 so))).
   { rewrite E4 by lia. cbn [Z.eqb]. unfold io. eapply lrun_cons; [reflexivity|].
-    rewrite eff_fopen, Go. cbn [fst snd]. unfold r1. cbn [nth].
-    destruct (Z.eqb_spec e 0); [contradiction|]. cbn [negb]. apply lrun_nil. }
+    rewrite eff_fopen, Go. cbn [fst snd]. unfold r0. cbn [nth]. rewrite He. cbn [is_some Z.eqb negb]. apply lrun_nil. }
   destruct (irun_lrun fsys P c12_local fs_eff c12_creply c12_gives c12_ctok 0 _ _ _ _ L s4 ltac:(lia) eq_refl eq_refl) as [n2 R2].
   eexists (1 + n2)%nat, _. split; [eapply irun_app; [exact R1|exact R2]|].
   constructor; cbn [spr].
@@ -1732,7 +1725,6 @@ Proof.
     - intros Hx. lia.
     - intros a b _. apply Hc.
     - exact Hw.
-    - apply plan_ok_honest. exact Hpl.
     - exact Hst0.
     - exact Hst.
     - reflexivity.
@@ -1740,11 +1732,11 @@ Proof.
     - intros Hx. lia. }
   destruct (g_turns wr w s0 0 (-1) size args) as [[w1 ts]|] eqn:Gt.
   - destruct (g_fopen w1 0 (if wr then MAppend else MRead)) as [[w2 so] e] eqn:Go.
-    destruct (Z.eqb_spec e 0) as [->|He]; cbn [negb] in G; [discriminate|].
+    destruct so as [sr|] eqn:He; [discriminate|].
     destruct (mid_turns wr P size args K s0 out args 0 (-1) w [] s (Held 0) w1 ts ltac:(lia) ltac:(lia) eq_refl M0 ltac:(auto) Gt)
       as (n1 & s1 & tk1 & tv & R1 & M1).
     cbn [app] in M1. pose proof (mid_tk2 _ _ _ _ _ _ _ _ _ _ _ _ _ M1 eq_refl) as Etk. subst tk1.
-    destruct (finale_abort tv w1 ts s1 w2 so e M1 Go He) as (n2 & s2 & R2 & A).
+    destruct (finale_abort tv w1 ts s1 w2 None e M1 Go eq_refl) as (n2 & s2 & R2 & A).
     exists (n1 + n2)%nat, s2, (Held 0). split; [eapply irun_app; eauto|]. split; [eapply aborted2_nostep; exact A|].
     exists 0. split; [lia|]. apply (ab2_me _ _ A).
   - destruct (mid_turns_abort args 0 (-1) w [] s (Held 0) ltac:(lia) ltac:(lia) eq_refl M0 ltac:(auto) ltac:(left; reflexivity) Hpl Gt)
